@@ -105,6 +105,14 @@ type Case struct {
 
 	// DeadlineMs bounds Propose (context deadline).
 	DeadlineMs int `json:"deadline_ms"`
+
+	// More: further duties served by the same proposer service instance (their
+	// own More/Order are ignored; slots per epoch, presence of a graffiti provider
+	// and of an auctioneer, and unblind_all are those of the first duty).
+	More []Case `json:"more,omitempty"`
+	// Order of the calls, e.g. ["prepare:0","prepare:1","propose:0","propose:1"];
+	// empty = prepare and propose one duty after the other.
+	Order []string `json:"order,omitempty"`
 }
 
 func fill(dst []byte, seed uint8, salt int) {
